@@ -57,7 +57,7 @@ type c18Behaviour struct {
 	Run  func(addr, tag string, pki *PKI) (inFlight bool)
 }
 
-func c18TLSThenBind(cfg *tls.Config) func(addr, tag string, pki *PKI) bool {
+func c18TLSThenBind(cfg *tls.Config, op string) func(addr, tag string, pki *PKI) bool {
 	return func(addr, tag string, pki *PKI) bool {
 		cn, err := net.DialTimeout("tcp", addr, 5*time.Second)
 		if err != nil {
@@ -70,14 +70,14 @@ func c18TLSThenBind(cfg *tls.Config) func(addr, tag string, pki *PKI) bool {
 			return false // rejected during the handshake
 		}
 		// the client believes the handshake is complete: the request goes out at once
-		_, werr := tc.Write(c18Frames(tag)["bind"])
+		_, werr := tc.Write(c18Frames(tag)[op])
 		buf := make([]byte, 4096)
 		tc.Read(buf)
 		return werr == nil
 	}
 }
 
-func c18Behaviours(mtls bool, pki *PKI) []c18Behaviour {
+func c18Behaviours(mtls bool, pki *PKI, postOp string) []c18Behaviour {
 	var out []c18Behaviour
 	for _, op := range c18Ops {
 		op := op
@@ -149,10 +149,10 @@ func c18Behaviours(mtls bool, pki *PKI) []c18Behaviour {
 			return &tls.Config{RootCAs: pki.CAPool, ServerName: "localhost", Certificates: []tls.Certificate{cert}, InsecureSkipVerify: true}
 		}
 		out = append(out,
-			c18Behaviour{"tls12-no-certificate", "bind", c18TLSThenBind(noCert(tls.VersionTLS12, tls.VersionTLS12))},
-			c18Behaviour{"tls13-no-certificate", "bind", c18TLSThenBind(noCert(tls.VersionTLS13, tls.VersionTLS13))},
-			c18Behaviour{"foreign-ca-certificate", "bind", c18TLSThenBind(with(pki.ForeignCli))},
-			c18Behaviour{"expired-certificate", "bind", c18TLSThenBind(with(pki.ExpiredCli))},
+			c18Behaviour{"tls12-no-certificate", postOp, c18TLSThenBind(noCert(tls.VersionTLS12, tls.VersionTLS12), postOp)},
+			c18Behaviour{"tls13-no-certificate", postOp, c18TLSThenBind(noCert(tls.VersionTLS13, tls.VersionTLS13), postOp)},
+			c18Behaviour{"foreign-ca-certificate", postOp, c18TLSThenBind(with(pki.ForeignCli), postOp)},
+			c18Behaviour{"expired-certificate", postOp, c18TLSThenBind(with(pki.ExpiredCli), postOp)},
 		)
 	}
 	return out
@@ -199,7 +199,7 @@ func c18Run(c *Ctx) {
 				}
 			}(b)
 		}
-		behaviours := c18Behaviours(mtls, pki)
+		behaviours := c18Behaviours(mtls, pki, "bind")
 		reps := c.N(5, 200)
 		offTags := map[string]string{}
 		par := c.N(4, 32)
@@ -308,7 +308,7 @@ func c18Directory(c *Ctx) {
 	reps := c.N(3, 100)
 	k := 0
 	for rep := 0; rep < reps; rep++ {
-		for _, bh := range c18Behaviours(true, pki) {
+		for _, bh := range c18Behaviours(true, pki, "add") {
 			tag := fmt.Sprintf("cn=offender-%d,ou=people,dc=example,dc=org", c18Tag.Add(1))
 			offTags[tag] = bh.Name
 			inflight := bh.Run(addr, tag, pki)
